@@ -100,3 +100,21 @@ fn c00_instant_layout() {
     kani::cover!(carry == 1);
     kani::cover!(ds == 0 && dms == 0);
 }
+
+/// poll a future exactly once with a no-op waker; `None` = it would have had to wait (harness failure for the
+/// synchronous-in-practice async functions this is used on)
+pub(crate) fn poll_once<F: std::future::Future>(f: F) -> Option<F::Output> {
+    use std::task::{Context, Poll, RawWaker, RawWakerVTable, Waker};
+    fn clone(_: *const ()) -> RawWaker {
+        RawWaker::new(std::ptr::null(), &VT)
+    }
+    fn noop(_: *const ()) {}
+    static VT: RawWakerVTable = RawWakerVTable::new(clone, noop, noop, noop);
+    let waker = unsafe { Waker::from_raw(RawWaker::new(std::ptr::null(), &VT)) };
+    let mut cx = Context::from_waker(&waker);
+    let mut f = std::pin::pin!(f);
+    match f.as_mut().poll(&mut cx) {
+        Poll::Ready(x) => Some(x),
+        Poll::Pending => None,
+    }
+}
